@@ -42,7 +42,17 @@ NEXT_OID = 900                   # oid written by the "next transaction" probe
 FOREIGN = 999999                 # model id of the foreign transaction
 TIMEOUT = 8.0
 STEP_TIMEOUT = 15.0              # a whole scenario / commit step that does not return within this bound is blocked
-KINDS = ['file', 'fileblob', 'mapping', 'blobmapping', 'demofile', 'demomapping', 'blobfile']
+KINDS = ['file', 'fileblob', 'mapping', 'blobmapping', 'demofile', 'demomapping', 'blobfile',
+         'hexfile', 'demopushed', 'mvccmapping', 'blobhexfile', 'hexfileblob', 'blobdemofile', 'hexmapping',
+         'demodefault']
+# kinds the Lean model does not follow (record transform, instances, wrapper stacks): real-code oracle only
+ORACLE_ONLY_KINDS = ('hexfile', 'hexfileblob', 'blobhexfile', 'hexmapping', 'mvccmapping', 'blobdemofile',
+                     'demodefault')
+FILE_KINDS = ('file', 'fileblob', 'blobfile', 'hexfile', 'hexfileblob', 'blobhexfile')        # st is file based
+FS_KINDS = FILE_KINDS + ('demofile', 'demopushed', 'blobdemofile')                             # a FileStorage below
+BLOB_KINDS = ('fileblob', 'blobmapping', 'blobfile', 'hexfileblob', 'blobhexfile', 'blobdemofile', 'demodefault')
+BUDDY_KINDS = ('file', 'fileblob', 'mapping', 'blobmapping', 'demofile', 'blobfile', 'hexfile', 'demomapping')
+STAGING_UNMODELLED = ('undo', 'restore', 'restoreblob')      # ops that stage records the model does not know
 
 
 def p64(n):
@@ -84,65 +94,29 @@ def tag_of(data):
 class Env:
     """one real storage under test + bookkeeping shared by the real run and the model lines"""
 
-    def __init__(self, kind, quota, base, root):
-        from ZODB.FileStorage import FileStorage
-        from ZODB.MappingStorage import MappingStorage
-        from ZODB.DemoStorage import DemoStorage
-        from ZODB.blob import BlobStorage
+    def __init__(self, kind, quota, base, root, opts=None, parent=None):
         from ZODB.Connection import TransactionMetaData
         self.TMD = TransactionMetaData
         self.kind, self.quota, self.root = kind, quota, root
-        self.rec = vfs.Recorder(root)
-        self.cm = vfs.install(self.rec)
-        self.cm.__enter__()
-        # ZODB.blob binds `remove_committed = os.remove` at import time, out of the VFS's reach: route it
-        # through os.remove as it is NOW (the recording one), for the lifetime of this environment
-        self.blobmod = sys.modules.get('ZODB.blob') or __import__('ZODB.blob').blob
-        self.saved_remove = self.blobmod.remove_committed
-        self.blobmod.remove_committed = lambda path: os.remove(path)
-        self.fs = None            # the FileStorage whose files live in root (if any)
-        self.blobdir = None
-        self.demo = None
-        self.base = base or []
-        fsname = os.path.join(root, 'Data.fs')
-        if kind == 'file':
-            self.st = self.fs = FileStorage(fsname, quota=quota)
-        elif kind == 'fileblob':
-            self.blobdir = os.path.join(root, 'blobs')
-            self.st = self.fs = FileStorage(fsname, quota=quota, blob_dir=self.blobdir)
-        elif kind == 'blobfile':
-            # the BlobStorage WRAPPER over an undo-capable storage without blob support of its own
-            self.blobdir = os.path.join(root, 'blobs')
-            self.fs = FileStorage(fsname, quota=quota)
-            self.st = BlobStorage(self.blobdir, self.fs)
-        elif kind == 'mapping':
-            self.st = MappingStorage()
-        elif kind == 'blobmapping':
-            self.blobdir = os.path.join(root, 'blobs')
-            self.st = BlobStorage(self.blobdir, MappingStorage())
-        elif kind in ('demofile', 'demomapping'):
-            b = MappingStorage('base')
-            for i, (oid, tid) in enumerate(self.base):
-                t = TransactionMetaData()
-                b.tpc_begin(t, p64(tid))
-                b.store(p64(oid), b'\0' * 8, payload(11, 200 + i % 40), '', t)
-                b.tpc_vote(t)
-                b.tpc_finish(t)
-            if kind == 'demofile':
-                self.fs = FileStorage(fsname, quota=quota)
-                changes = self.fs
-            else:
-                changes = MappingStorage('changes')
-            self.st = self.demo = DemoStorage(base=b, changes=changes)
-            self.changes = changes
+        self.opts = opts or {}
+        self.parent = parent
+        if parent is None:
+            self.rec = vfs.Recorder(root)
+            self.cm = vfs.install(self.rec)
+            self.cm.__enter__()
+            # ZODB.blob binds `remove_committed = os.remove` at import time, out of the VFS's reach: route
+            # it through os.remove as it is NOW (the recording one), for the lifetime of this environment
+            self.blobmod = sys.modules.get('ZODB.blob') or __import__('ZODB.blob').blob
+            self.saved_remove = self.blobmod.remove_committed
+            self.blobmod.remove_committed = lambda path: os.remove(path)
         else:
-            raise InfraError('unknown kind %r' % kind)
-        self.inner = self.fs if self.fs is not None else (
-            self.changes if self.demo is not None else
-            (self.st._BlobStorage__storage if kind == 'blobmapping' else self.st))
+            self.rec = parent.rec       # a second storage of the same kind alive in the same process
+        self.base = (base or []) if kind != 'demodefault' else []
+        self.basest = None
+        self.build(first=True)
         self.txn_objs = {}
-        self.next_t = 1
-        self.next_tid = T0 + 16
+        self.next_t = 1 if parent is None else 500001
+        self.next_tid = (T0 if parent is None else T0 + 2 ** 40) + 16
         self.cur = {}              # oid -> committed tid in the storage under test (harness bookkeeping)
         for oid, tid in self.base:
             self.cur[oid] = tid
@@ -151,6 +125,158 @@ class Env:
         self.dead = False
         self.last_user_tid = None  # newest committed transaction that is not a lock probe (undo target)
         self.user_tids = []        # all of them, oldest first
+        self.buddy = None
+        if self.opts.get('buddy') and parent is None and kind in BUDDY_KINDS:
+            broot = os.path.join(root, 'buddy')
+            os.makedirs(broot)
+            self.buddy = Env(kind, None, base, broot, dict(self.opts, buddy=False), parent=self)
+
+    def build(self, first):
+        """(re)construct the storage stack of this kind over the files in self.root"""
+        from ZODB.FileStorage import FileStorage
+        from ZODB.MappingStorage import MappingStorage
+        from ZODB.DemoStorage import DemoStorage
+        from ZODB.blob import BlobStorage
+        from ZODB.tests.hexstorage import HexStorage
+        kind, root, quota, opts = self.kind, self.root, self.quota, self.opts
+        fsname = os.path.join(root, 'Data.fs')
+        blobdir = os.path.join(root, 'blobs')
+        self.fs = None            # the FileStorage whose files live in root (if any)
+        self.blobdir = None
+        self.demo = None
+        self.wrapper = None       # a BlobStorage wrapper (it has dirty_oids of its own)
+        self.changes = None
+        layout = opts.get('layout', 'automatic')
+
+        def filestorage(blob=False):
+            kw = dict(quota=quota)
+            if blob:
+                kw['blob_dir'] = blobdir
+            if opts.get('via') == 'config':
+                import ZODB.config
+                cfg = '<filestorage>\n path %s\n pack-gc %s\n pack-keep-old %s\n' % (
+                    fsname, opts.get('pack_gc', 'false'), opts.get('pack_keep_old', 'true'))
+                if quota is not None:
+                    cfg += ' quota %d\n' % quota
+                if blob:
+                    cfg += ' blob-dir %s\n' % blobdir
+                return ZODB.config.storageFromString(cfg + '</filestorage>\n')
+            if opts.get('fileopts'):
+                kw.update(pack_gc=False, pack_keep_old=False, create=first)
+            return FileStorage(fsname, **kw)
+
+        def mapping(name='MappingStorage'):
+            if opts.get('via') == 'config':
+                import ZODB.config
+                return ZODB.config.storageFromString('<mappingstorage>\n name %s\n</mappingstorage>\n' % name)
+            return MappingStorage(name)
+
+        def basestorage():
+            if self.basest is None:
+                b = MappingStorage('base')
+                for i, (oid, tid) in enumerate(self.base):
+                    t = self.TMD()
+                    b.tpc_begin(t, p64(tid))
+                    b.store(p64(oid), b'\0' * 8, payload(11, 200 + i % 40), '', t)
+                    b.tpc_vote(t)
+                    b.tpc_finish(t)
+                self.basest = b
+            return self.basest
+
+        if kind in ('file', 'fileblob'):
+            self.fs = filestorage(kind == 'fileblob')
+            self.st = self.fs
+            self.blobdir = blobdir if kind == 'fileblob' else None
+        elif kind == 'blobfile':
+            # the BlobStorage WRAPPER over an undo-capable storage without blob support of its own
+            self.fs = filestorage()
+            self.st = self.wrapper = BlobStorage(blobdir, self.fs, layout=layout)
+            self.blobdir = blobdir
+        elif kind in ('hexfile', 'hexfileblob'):
+            self.fs = filestorage(kind == 'hexfileblob')
+            self.st = HexStorage(self.fs)
+            self.blobdir = blobdir if kind == 'hexfileblob' else None
+        elif kind == 'blobhexfile':
+            self.fs = filestorage()
+            self.st = self.wrapper = BlobStorage(blobdir, HexStorage(self.fs), layout=layout)
+            self.blobdir = blobdir
+        elif kind == 'mapping':
+            self.st = mapping()
+        elif kind == 'hexmapping':
+            self.changes = mapping()
+            self.st = HexStorage(self.changes)
+        elif kind == 'mvccmapping':
+            # one instance of a natively multi-version storage commits, a sibling instance stays alive
+            from ZODB.tests.MVCCMappingStorage import MVCCMappingStorage
+            self.mvcc_main = MVCCMappingStorage()
+            self.mvcc_sibling = self.mvcc_main.new_instance()
+            self.st = self.mvcc_main.new_instance()
+        elif kind == 'blobmapping':
+            self.changes = mapping()
+            self.st = self.wrapper = BlobStorage(blobdir, self.changes, layout=layout)
+            self.blobdir = blobdir
+        elif kind in ('demofile', 'demomapping', 'demopushed', 'blobdemofile'):
+            if kind == 'demomapping':
+                changes = mapping('changes')
+            else:
+                self.fs = filestorage()
+                changes = self.fs
+            if kind == 'demopushed':
+                # base <- demo layer (mapping changes) <- pushed layer whose changes are the FileStorage
+                lower = DemoStorage(base=basestorage(), changes=MappingStorage('lower'))
+                self.st = self.demo = lower.push(changes)
+            elif opts.get('via') == 'config' and kind == 'demofile':
+                import ZODB.config
+                self.fs.close()
+                cfg = ('<demostorage>\n <mappingstorage base>\n </mappingstorage>\n <filestorage changes>\n'
+                       '  path %s\n%s </filestorage>\n</demostorage>\n' % (
+                           fsname, ('  quota %d\n' % quota) if quota is not None else ''))
+                self.st = self.demo = ZODB.config.storageFromString(cfg)
+                self.fs = changes = self.st.changes
+                for i, (oid, tid) in enumerate(self.base if first else []):
+                    t = self.TMD()
+                    b = self.st.base
+                    b.tpc_begin(t, p64(tid))
+                    b.store(p64(oid), b'\0' * 8, payload(11, 200 + i % 40), '', t)
+                    b.tpc_vote(t)
+                    b.tpc_finish(t)
+                if first:
+                    self.basest = self.st.base
+                else:
+                    self.st.base = self.basest
+            else:
+                self.st = self.demo = DemoStorage(base=basestorage(), changes=changes)
+            self.changes = changes
+            if kind == 'blobdemofile':
+                self.st = self.wrapper = BlobStorage(blobdir, self.demo, layout=layout)
+                self.blobdir = blobdir
+        elif kind == 'demodefault':
+            # DemoStorage() as most tests use it: temporary changes, blob support appears on demand
+            self.st = self.demo = DemoStorage()
+            self.st.temporaryDirectory()    # the blob directory is created lazily, once: do it up front
+            self.changes = self.st.changes
+        else:
+            raise InfraError('unknown kind %r' % kind)
+        self.oracle_only = kind in ORACLE_ONLY_KINDS
+
+    @property
+    def inner(self):
+        """the object that owns `_transaction` and the commit lock the two-phase commit runs on"""
+        if self.fs is not None:
+            return self.fs
+        if self.kind == 'demodefault':
+            c = self.st.changes
+            return getattr(c, '_BlobStorage__storage', c)
+        if self.changes is not None:
+            return self.changes
+        return self.st
+
+    def current_blobdir(self):
+        if self.kind == 'demodefault':
+            h = getattr(self.st.changes, 'fshelper', None)
+            d = getattr(h, 'base_dir', None)
+            return d.rstrip(os.sep) if d and os.path.isdir(d) else None
+        return self.blobdir
 
     def model_reset(self):
         q = 'none' if self.quota is None else str(self.quota)
@@ -158,7 +284,8 @@ class Env:
         return {'file': 'reset file ' + q, 'fileblob': 'reset file ' + q, 'blobfile': 'reset file ' + q,
                 'mapping': 'reset mapping',
                 'blobmapping': 'reset mapping', 'demofile': 'reset demo-file %s %s' % (q, b),
-                'demomapping': 'reset demo-mapping ' + b}[self.kind]
+                'demopushed': 'reset demo-file %s %s' % (q, b),
+                'demomapping': 'reset demo-mapping ' + b}.get(self.kind, 'reset mapping')
 
     def close(self):
         try:
@@ -166,26 +293,32 @@ class Env:
                 self.st.close()
         except Exception:
             pass
-        self.blobmod.remove_committed = self.saved_remove
-        self.cm.__exit__(None, None, None)
+        if self.buddy is not None:
+            self.buddy.close()
+        if self.parent is None:
+            self.blobmod.remove_committed = self.saved_remove
+            self.cm.__exit__(None, None, None)
 
     # ---- observations -------------------------------------------------------------------
     def blob_files(self):
         out = []
-        if self.blobdir and os.path.isdir(self.blobdir):
-            for dp, dns, fns in os.walk(self.blobdir):
-                if os.path.relpath(dp, self.blobdir).split(os.sep)[0] == 'tmp':
+        bd = self.current_blobdir()
+        if bd and os.path.isdir(bd):
+            for dp, dns, fns in os.walk(bd):
+                if os.path.relpath(dp, bd).split(os.sep)[0] == 'tmp':
                     continue
                 for f in fns:
                     if f.endswith('.blob'):
-                        out.append(os.path.relpath(os.path.join(dp, f), self.blobdir))
+                        out.append(os.path.relpath(os.path.join(dp, f), bd))
         return sorted(out)
 
     def blob_pairs(self):
         helper = getattr(self.st, 'fshelper', None)
+        if self.kind == 'demodefault':
+            helper = getattr(self.st.changes, 'fshelper', None)
         out = []
         for relp in self.blob_files():
-            full = os.path.join(self.blobdir, relp)
+            full = os.path.join(self.current_blobdir(), relp)
             oid = helper.getOIDForPath(os.path.dirname(full))
             tid = bytes.fromhex(os.path.basename(full)[2:-5])
             out.append((u64(oid), u64(tid)))
@@ -200,7 +333,7 @@ class Env:
                 continue
             if k.endswith('.lock') or k.endswith('.tmp'):
                 v = b'<excluded>'
-            if k.startswith('blobs' + os.sep + 'tmp' + os.sep):
+            if k.startswith('blobs' + os.sep + 'tmp' + os.sep) or k.startswith('buddy' + os.sep):
                 continue
             img[k] = v
         return img
@@ -245,7 +378,7 @@ class Env:
                 q['hist', oid] = [(u64(e['tid']), e['size']) for e in h]
             except POSKeyError:
                 q['hist', oid] = 'KeyError'
-        if self.blobdir:
+        if self.current_blobdir():
             for oid, tid in self.blob_pairs():
                 try:
                     with open(st.loadBlob(p64(oid), p64(tid)), 'rb') as f:
@@ -265,11 +398,18 @@ class Env:
             m['ntindex'] = len(f._tindex)
             m['size'] = f.getSize()
             m['dirty'] = list(f.dirty_oids)
+            m['tfile_pos'] = f._tfile.tell()                       # the staging file is rewound
+            m['resolved'] = len(f._resolved)
+            pool = f._files                                         # the readers' pool is idle
+            m['pool'] = (bool(getattr(pool, 'writing', False)), getattr(pool, 'writers', 0),
+                         len(getattr(pool, '_out', ())))
         else:
             m['ltid'] = u64(i._ltid)
             m['ndata'] = len(i._data)
-        if self.kind in ('blobmapping', 'blobfile'):
-            m['wrapper_dirty'] = list(self.st.dirty_oids)
+        if self.wrapper is not None:
+            m['wrapper_dirty'] = list(self.wrapper.dirty_oids)
+        if self.kind == 'demodefault':
+            m['wrapper_dirty'] = list(getattr(self.st.changes, 'dirty_oids', []))
         if self.demo is not None:
             m['demo_txn_none'] = self.demo._transaction is None
             m['demo_lock_free'] = not self.demo._commit_lock.locked()
@@ -448,7 +588,7 @@ class Runner:
             if c == 'T':
                 last_ok = dm[-1][0] == 'trunc' and dm[-1][2] == pos
             cls = ' d=%s b=%d' % (c, beyond and last_ok)
-            if self.env.kind in ('demofile',):
+            if self.env.kind in ('demofile', 'demopushed', 'blobdemofile'):
                 cls = ''                     # the demo machines print the outcome only
         self.count('call:' + name)
         if out != 'ok':
@@ -525,8 +665,8 @@ class Runner:
         return True
 
     def cleanup_blob_tmp(self, env):
-        if env.blobdir:
-            td = os.path.join(env.blobdir, 'tmp')
+        if env.current_blobdir():
+            td = os.path.join(env.current_blobdir(), 'tmp')
             if os.path.isdir(td):
                 for f in os.listdir(td):
                     try:
@@ -556,6 +696,31 @@ class Runner:
             ser = env.serial(oid, skind)
             return self.call(env, 'delete', lambda: st.deleteObject(p64(oid), p64(ser), obj),
                              'delete %d %d %d' % (mt, oid, ser), fault_k=fault_k, label=label)
+        if op[0] in ('restore', 'restoreblob'):
+            # restore (copy / recovery entry point): the record carries its own serial and an optional
+            # back-pointer hint; no model line (the model sees the begin / vote / abort envelope)
+            _, oid, dlen, tag, prevkind = op
+            if not hasattr(st, 'restore') or (op[0] == 'restoreblob' and not hasattr(st, 'restoreBlob')):
+                return dict(out='ok', evs=[], fired=[])
+            prev = p64(env.cur[oid]) if (prevkind == 'cur' and env.cur.get(oid)) else None
+            data = payload(dlen, tag)
+            if op[0] == 'restore':
+                return self.call(env, 'restore', lambda: st.restore(p64(oid), p64(tid), data, '', prev, obj),
+                                 None, label=label)
+            tmpname = os.path.join(env.st.temporaryDirectory(), 'r%d-%d.tmp' % (mt, oid))
+            with vfs._real_open(tmpname, 'wb') as f:
+                f.write(b'R' + bytes([tag]) * 9)
+            return self.call(env, 'restoreBlob',
+                             lambda: st.restoreBlob(p64(oid), p64(tid), data, tmpname, prev, obj), None, label=label)
+        if op[0] == 'checkcurrent':
+            _, oid, skind = op
+            ser = env.serial(oid, skind)
+            if not env.cur.get(oid):
+                return dict(out='ok', evs=[], fired=[])
+            return self.call(env, 'checkCurrent',
+                             lambda: st.checkCurrentSerialInTransaction(p64(oid), p64(ser), obj), None, label=label)
+        if op[0] == 'newoid':
+            return self.call(env, 'new_oid', lambda: st.new_oid(), None, label=label)
         if op[0] == 'undo':
             # undo of the newest committed user transaction (C06 owns undo itself; here only its place in
             # a two-phase commit that does not finish) — no model line: the model sees begin/vote/abort
@@ -776,6 +941,46 @@ class Runner:
         return False
 
     # ---- one victim scenario ------------------------------------------------------------
+    def buddy_roundtrip(self, env, phase, commit):
+        """a second storage of the same class, alive in the same process, runs a whole transaction while the
+        victim is at `phase`: state shared between instances by accident (class attributes, module
+        globals) shows as an effect on one of them"""
+        b = env.buddy
+        if b is None or b.dead:
+            return
+        self.count('buddy:' + ('commit' if commit else 'abort'))
+        before = b.observe()
+        t, tid, obj = b.new_txn(0, 3, 0)
+        oid, dlen, tag = 31 + (tid // 16) % 3, 6 + (tid // 16) % 5, 41
+        try:
+            b.st.tpc_begin(obj, p64(tid))
+            b.st.store(p64(oid), p64(b.cur.get(oid, 0)), payload(dlen, tag), '', obj)
+            b.st.tpc_vote(obj)
+            if commit:
+                b.st.tpc_finish(obj)
+                b.cur[oid] = tid
+                b.oids.add(oid)
+                b.alltids.append(tid)
+                got = self.load1(b, oid)
+                if got != (dlen, tag, tid):
+                    self.violation('C05:two-instances:%s:buddy-commit' % env.kind,
+                                   'a second storage committed while the victim was %s; its load answers %r '
+                                   'instead of %r' % (phase, got, (dlen, tag, tid)))
+            else:
+                b.st.tpc_abort(obj)
+                after = b.observe()
+                if after != before:
+                    diffs = ['%s[%r]' % (sect, k) for sect in ('dir', 'q', 'mem')
+                             for k in sorted(set(before[sect]) | set(after[sect]), key=repr)
+                             if before[sect].get(k, '<absent>') != after[sect].get(k, '<absent>')]
+                    self.violation('C05:two-instances:%s:buddy-abort' % env.kind,
+                                   'a second storage of the same kind began, stored, voted and aborted while the '
+                                   'victim was %s; it differs from its state before in %s' % (phase, ', '.join(diffs[:5])))
+        except Exception as e:
+            self.violation('C05:two-instances:%s:buddy-error' % env.kind,
+                           'a transaction on a second storage of the same kind, run while the victim was %s, '
+                           'raised %s: %s' % (phase, type(e).__name__, str(e)[:120]))
+
     def guarded(self, env, label, fn):
         """run one step (a whole scenario or history commit) in a thread: a step that does not return —
         some call or read of it blocks on a lock / condition a rejected or aborted call left behind — is
@@ -836,7 +1041,8 @@ class Runner:
         ops = [list(o) for o in victim['ops']]
         if fk == 'conflict':
             i = failure['at'] % max(1, len(ops))
-            cands = [j for j, o in enumerate(ops) if o[1] in env.cur and env.cur[o[1]] > 1]
+            cands = [j for j, o in enumerate(ops) if o[0] in ('store', 'storeblob', 'delete')
+                     and o[1] in env.cur and env.cur[o[1]] > 1]
             if cands:
                 i = cands[failure['at'] % len(cands)]
                 ops[i][2] = 'stale'
@@ -888,9 +1094,9 @@ class Runner:
             blobs0, mut0 = env.blob_files(), mut_count()
             held0 = (env.inner._transaction is obj, env.inner._commit_lock.locked())
             fops = [['store', 1, 'cur', 4, 44]]
-            if env.kind in ('file', 'fileblob', 'blobfile'):
+            if env.kind in FILE_KINDS:
                 fops.append(['delete', 1, 'cur'])
-            if env.blobdir:
+            if env.kind in BLOB_KINDS:
                 fops.append(['storeblob', 2, 'cur', 4, 45])
             for fo in fops:
                 r = self.do_op(env, fo, FOREIGN, 0, other, 'foreign')
@@ -926,6 +1132,20 @@ class Runner:
                 self.violation('C05:foreign-call-not-rejected:%s:begin' % env.kind,
                                'duplicate tpc_begin answered ' + r['out'])
 
+        # ---- calls that come too early: tpc_abort for a transaction that never began is ignored; store /
+        # vote / finish without a transaction in progress are rejected; nothing may change
+        if fk in ('abort', 'count', 'meta', 'conflict'):
+            pre = [('abort', lambda: st.tpc_abort(obj), 'ok')]
+            if fk == 'abort' and failure.get('at') == 0:
+                pre += [('store', lambda: st.store(p64(1), p64(0), b'zz', '', obj), 'err:StorageTransaction'),
+                        ('vote', lambda: st.tpc_vote(obj), 'err:StorageTransaction'),
+                        ('finish', lambda: st.tpc_finish(obj), 'err:StorageTransaction')]
+            for nm, fn, exp in pre:
+                ml = ('store %d 1 0 2 122' % t) if nm == 'store' else '%s %d' % (nm, t)
+                rr = self.call(env, nm, fn, ml, label='early')
+                if rr['out'] != exp:
+                    self.violation('C05:foreign-call-not-rejected:%s:early-%s' % (env.kind, nm),
+                                   'tpc_%s / %s for a transaction that has not begun answered %s' % (nm, nm, rr['out']))
         # ---- begin
         n_before = mut_count()
         r = self.call(env, 'begin', lambda: st.tpc_begin(obj, p64(tid)),
@@ -937,6 +1157,9 @@ class Runner:
             state['failed'] = 'begin: ' + r['out']
         abort_at = failure.get('at') if fk == 'abort' else None
         fphase = failure.get('phase') if fk == 'foreign' else None
+        quiet = fk in ('abort', 'count', 'foreign', 'meta', 'conflict', 'quota')     # no fault armed
+        if quiet:
+            self.buddy_roundtrip(env, 'after its tpc_begin', commit=False)
         if not state['failed'] and fphase == 0:
             foreign_calls('after begin')
         if not state['failed'] and abort_at != 0:
@@ -947,7 +1170,7 @@ class Runner:
                 if r['out'] != 'ok':
                     state['failed'] = '%s #%d: %s' % (op[0], i + 1, r['out'])
                     break
-                if op[0] != 'undo':
+                if op[0] in ('store', 'storeblob', 'delete'):
                     nrec_ok[0] += 1          # records the MODEL has staged
                 if abort_at == i + 1:
                     break
@@ -992,6 +1215,8 @@ class Runner:
                         self.nontrivial = True
                 else:
                     state['voted'] = True
+                if state['voted'] and quiet:
+                    self.buddy_roundtrip(env, 'voted', commit=True)
                 if state['voted'] and fphase == 2:
                     foreign_calls('after vote')
         # non-trivial (DESIGN 4.21): the fault hit after >= 1 raw write of the vote, or a failure / abort
@@ -1061,7 +1286,12 @@ class Runner:
                 return percall
             stored = {}
             for op in ops:
-                stored[op[1]] = None if op[0] == 'delete' else (op[3], op[4], op[0] == 'storeblob')
+                if op[0] == 'delete':
+                    stored[op[1]] = None
+                elif op[0] in ('store', 'storeblob'):
+                    stored[op[1]] = (op[3], op[4], b'B' + bytes([op[4]]) * 17 if op[0] == 'storeblob' else None)
+                elif op[0] in ('restore', 'restoreblob') and hasattr(st, 'restore'):
+                    stored[op[1]] = (op[2], op[3], b'R' + bytes([op[3]]) * 9 if op[0] == 'restoreblob' else None)
             for oid, v in stored.items():
                 env.cur[oid] = tid
                 env.oids.add(oid)
@@ -1076,13 +1306,13 @@ class Runner:
                         bad.append('load(%d) wrong' % oid)
                     if v[2]:
                         with open(st.loadBlob(p64(oid), p64(tid)), 'rb') as f:
-                            if f.read() != b'B' + bytes([v[1]]) * 17:
+                            if f.read() != v[2]:
                                 bad.append('blob(%d) wrong' % oid)
                 except Exception as ex:
                     bad.append('%s for oid %d' % (type(ex).__name__, oid))
             if bad:
                 sig = 'C05:foreign-call-effect:%s:committed-unreadable' % env.kind
-                if any('blob' in b or 'POSKeyError' in b for b in bad) and env.blobdir:
+                if any('blob' in b or 'POSKeyError' in b for b in bad) and env.kind in BLOB_KINDS:
                     sig = 'C05:foreign-abort-removes-blob'
                 self.violation(sig, 'calls with a foreign transaction were made during the commit; the '
                                     'transaction then committed but: ' + '; '.join(bad))
@@ -1107,6 +1337,13 @@ class Runner:
             env.rec.on_event = None
         percall.append(('abort', 0))
         self.cleanup_blob_tmp(env)
+        if r['out'] == 'ok':
+            # tpc_abort called a second time for the same (now ended) transaction: ignored, in particular
+            # the commit lock is not released twice
+            r2 = self.call(env, 'abort', lambda: st.tpc_abort(obj), 'abort %d' % t, label='abort-twice')
+            if r2['out'] != 'ok':
+                self.violation('C05:abort-twice:%s:%s' % (env.kind, label),
+                               'a second tpc_abort for the already aborted transaction answered ' + r2['out'])
         if r['out'] != 'ok':
             self.violation('C05:abort-raised:%s:%s' % (env.kind, label), 'the mandated tpc_abort raised ' + r['out'])
             return percall
@@ -1137,7 +1374,7 @@ class Runner:
                     fired.append(ev)
                     rec.fail_at = rec.nmut + 1
             rec.on_event = arm
-            filekind = env.kind in ('file', 'fileblob', 'blobfile') and variant == 'abort-trunc'
+            filekind = env.kind in ('file', 'fileblob', 'blobfile') and variant == 'abort-trunc' and not env.oracle_only
             try:
                 if not filekind:
                     self.mute = True
@@ -1199,7 +1436,7 @@ class Runner:
             env.cm.__exit__(None, None, None)
             env.cm = vfs.install(env.rec)
             env.cm.__enter__()
-            kw = dict(blob_dir=env.blobdir) if env.kind == 'fileblob' else {}
+            kw = dict(blob_dir=env.blobdir) if env.kind in ('fileblob', 'hexfileblob') else {}
             g = FileStorage(f._file_name, **kw)
             tids = [u64(t.tid) for t in g.iterator()]
             self.count('finish-failure-reopen:' + ('present' if tid in tids else 'absent'))
@@ -1232,14 +1469,15 @@ class Runner:
             scen.append(dict(kind='abort', at=i))
         scen.append(dict(kind='abort', at='vote'))
         for w in range(3):
-            if env.kind in ('file', 'fileblob', 'blobfile', 'demofile') or w == 1:
+            if env.kind in FS_KINDS or w == 1:
                 scen.append(dict(kind='meta', which=w, extra=rng.choice([0, 0, 1, 4000])))
         scen.append(dict(kind='conflict', at=rng.randrange(4)))
         if env.quota is not None:
             scen.append(dict(kind='quota'))
         for ph in (0, 1, 2):
             scen.append(dict(kind='foreign', phase=ph, commit=False))
-        if not any(o[0] == 'undo' for o in victim['ops']):      # (the model has no undo records to commit)
+        if not any(o[0] in (('undo',) if env.oracle_only else STAGING_UNMODELLED) for o in victim['ops']):
+            # (the model cannot commit records staged by undo / restore)
             scen.append(dict(kind='foreign', phase=rng.choice([1, 2]), commit=True))
         for f in scen:
             if env.dead:
@@ -1250,7 +1488,9 @@ class Runner:
 
     def run(self, rng=None, thorough=False):
         case = self.case
-        env = self.env = Env(case['kind'], case.get('quota'), case.get('base'), self.root)
+        env = self.env = Env(case['kind'], case.get('quota'), case.get('base'), self.root, case.get('opts'))
+        if env.oracle_only:
+            self.mute = True            # no Lean model of this storage stack: real-code oracle only
         try:
             self.emit(env.model_reset(), 'ok')
             for step in case['steps']:
@@ -1276,26 +1516,77 @@ class Runner:
                     self.sweep(env, step['victim'], rng, thorough)
                 else:
                     raise InfraError('bad step %r' % (step,))
+            if not env.dead and not self.violations and not self.blocked:
+                self.guarded(env, 'reopen', lambda: self.reopen_check(env))
         finally:
             env.close()
         return self
 
+    def reopen_check(self, env):
+        """no trace that only shows after a restart: close, reopen with the saved index, reopen by scan
+        (index file removed) — every query answers as before the close"""
+        if env.fs is None or env.kind not in FS_KINDS:
+            return
+        q0 = env.queries()
+        pos0 = env.fs._pos
+        for how in ('saved-index', 'scan'):
+            try:
+                if env.demo is not None:
+                    env.fs.close()          # (closing a DemoStorage would also close its in-memory base)
+                else:
+                    env.st.close()
+                if how == 'scan':
+                    ix = os.path.join(env.root, 'Data.fs.index')
+                    if os.path.exists(ix):
+                        vfs._real_os['remove'](ix)
+                env.build(first=False)
+                q1 = env.queries()
+                pos1 = env.fs._pos
+            except Exception as e:
+                self.violation('C05:reopen:%s:%s' % (env.kind, how),
+                               'after the history of aborted / failed transactions the storage cannot be '
+                               'closed and reopened (%s): %s: %s' % (how, type(e).__name__, str(e)[:150]))
+                env.dead = True
+                return
+            self.count('reopen:' + how)
+            if q1 != q0 or pos1 != pos0:
+                bad = [k for k in sorted(set(q0) | set(q1), key=repr) if q0.get(k) != q1.get(k)][:3]
+                self.violation('C05:trace-after-reopen:%s:%s' % (env.kind, how),
+                               'closing and reopening the storage (%s) changes what it answers: _pos %d -> %d; '
+                               '%s' % (how, pos0, pos1, '; '.join('%r: %s -> %s' % (
+                                   k, str(q0.get(k))[:60], str(q1.get(k))[:60]) for k in bad)))
+                return
+
 
 # ---------------------------------------------------------------------------- generator
-def gen_txn(rng, kind, oids, big=False):
+def gen_txn(rng, kind, oids, big=False, victim=False):
+    """a transaction body; victims (never committed by the model) also use the entry points the model does
+    not know: restore / restoreBlob with and without a back-pointer hint, checkCurrentSerialInTransaction
+    (current and stale), new_oid; and may be empty"""
     nops = rng.choice([1, 1, 2, 2, 3, 4])
+    if rng.random() < (0.12 if victim else 0.04):
+        nops = 0                                  # an empty transaction
     ops = []
     for _ in range(nops):
         oid = rng.choice(oids)
         r = rng.random()
         if big and r < 0.5:
-            dlen = rng.choice([8150, 8192, 9000, 20000, 70000])
+            dlen = rng.choice([8150, 8192, 9000, 20000, 70000, 140000])
         else:
             dlen = rng.choice([1, 2, 30, 100, 500, 4000])
         tag = rng.choice(safe_tags())
-        if kind in ('fileblob', 'blobmapping', 'blobfile') and rng.random() < 0.35:
+        r = rng.random()
+        if victim and r < 0.10 and kind in FS_KINDS:
+            ops.append(['restore', oid, dlen, tag, rng.choice(['none', 'cur'])])
+        elif victim and r < 0.14 and kind in BLOB_KINDS and kind in FS_KINDS:
+            ops.append(['restoreblob', oid, dlen, tag, rng.choice(['none', 'cur'])])
+        elif victim and r < 0.22:
+            ops.append(['checkcurrent', oid, rng.choice(['cur', 'cur', 'stale'])])
+        elif victim and r < 0.26:
+            ops.append(['newoid'])
+        elif kind in BLOB_KINDS and r < 0.50:
             ops.append(['storeblob', oid, 'cur', dlen, tag])
-        elif kind in ('file', 'fileblob', 'blobfile') and rng.random() < 0.12:
+        elif kind in FILE_KINDS and r < 0.58:
             ops.append(['delete', oid, 'cur'])
         else:
             ops.append(['store', oid, 'cur', dlen, tag])
@@ -1316,7 +1607,7 @@ def partial_undo_steps(rng):
 
 
 def gen_case(rng, kind, thorough):
-    oids = [1, 2, 3, 5, 8, 2 ** 16 + 1]
+    oids = [1, 2, 3, 5, 8, 2 ** 16 + 1, 255, 2 ** 63 + 5, 0]     # incl. 0xff bytes, the high bit, the root oid
     ncommit = rng.choice([2, 3, 4, 6])
     steps = []
     nv = 0
@@ -1328,10 +1619,9 @@ def gen_case(rng, kind, thorough):
     size = 4
     for i in range(ncommit + 1):
         if i in vpos and nv < maxv:
-            v = gen_txn(rng, kind, oids, big=(rng.random() < 0.35 and kind in ('file', 'fileblob', 'blobfile',
-                                                                               'demofile')))
+            v = gen_txn(rng, kind, oids, big=(rng.random() < 0.35 and kind in FS_KINDS), victim=True)
             v['d'] = min(v['d'], 300)
-            if kind == 'blobfile' and i > 0:
+            if kind in ('blobfile', 'blobhexfile') and i > 0:
                 # undo of the transaction committed just before (it created or rewrote a blob), inside a
                 # two-phase commit that does not finish
                 others = [o for o in v['ops'] if o[0] == 'store' and o[1] not in (1, 2)][:1]
@@ -1340,25 +1630,43 @@ def gen_case(rng, kind, thorough):
             nv += 1
         if i < ncommit:
             txn = gen_txn(rng, kind, oids)
-            if kind == 'blobfile' and (i + 1) in vpos:
+            if kind in ('blobfile', 'blobhexfile') and (i + 1) in vpos:
                 txn['ops'] = [['storeblob', rng.choice([1, 2]), 'cur', rng.choice([5, 300]), rng.choice(safe_tags())]] \
                     + [o for o in txn['ops'] if o[0] == 'store' and o[1] not in (1, 2)][:1]
             steps.append(dict(type='commit', txn=txn))
-    if kind in ('file', 'fileblob', 'blobfile') and rng.random() < 0.6:
+    if kind in FILE_KINDS and rng.random() < 0.6:
         steps[0:0] = partial_undo_steps(rng)
+    if kind in FS_KINDS and rng.random() < 0.3:
+        # a transaction larger than 64 KiB (utils.cp chunks) right after a still larger one: the staging
+        # file keeps the longer one's bytes behind the shorter one's end
+        bigger = dict(u=0, d=5, e=0, ops=[['store', 21, 'cur', 200000, 31], ['store', 22, 'cur', 10, 32]])
+        smaller = dict(u=0, d=5, e=0, ops=[['store', 21, 'cur', 70000, 33]])
+        steps[1:1] = [dict(type='scenario', victim=bigger, failure=dict(kind='abort', at='vote')),
+                      dict(type='scenario', victim=smaller, failure=dict(kind='abort', at='vote')),
+                      dict(type='commit', txn=bigger), dict(type='commit', txn=smaller)]
     quota = None
-    if kind in ('file', 'fileblob', 'demofile') and rng.random() < 0.5:
+    if kind in ('file', 'fileblob', 'demofile', 'hexfile', 'demopushed') and rng.random() < 0.5:
         quota = rng.choice([600000, 1000000, 2000000])
+    opts = {}
+    if kind in ('file', 'fileblob', 'mapping', 'demofile', 'demomapping', 'hexfile') and rng.random() < 0.4:
+        opts['via'] = 'config'                    # built by ZODB.config.storageFromString
+        opts['pack_gc'], opts['pack_keep_old'] = rng.choice(['true', 'false']), rng.choice(['true', 'false'])
+    elif kind in FS_KINDS and rng.random() < 0.3:
+        opts['fileopts'] = True                   # create=True, pack_gc=False, pack_keep_old=False
+    if kind in ('blobfile', 'blobmapping', 'blobhexfile', 'blobdemofile') and rng.random() < 0.5:
+        opts['layout'] = rng.choice(['lawn', 'bushy'])
+    if kind in BUDDY_KINDS and rng.random() < 0.4:
+        opts['buddy'] = True                      # a second storage of the same kind, interleaved
     r = rng.random()
-    if kind in ('file', 'fileblob', 'blobfile') and r < 0.35:
+    if kind in FILE_KINDS and r < 0.35:
         v = gen_txn(rng, kind, oids)
         v['d'] = min(v['d'], 300)
         steps.append(dict(type='scenario', victim=v, failure=dict(kind='finishfault')))
-    elif kind in ('file', 'fileblob', 'blobfile', 'demofile', 'blobmapping') and r < 0.75:
+    elif (kind in FS_KINDS or kind == 'blobmapping') and r < 0.75:
         v = gen_txn(rng, kind, oids)
         v['d'] = min(v['d'], 300)
         variants = ['abort-trunc', 'vote-trunc'] if kind != 'blobmapping' else []
-        if kind in ('fileblob', 'blobfile', 'blobmapping'):
+        if kind in BLOB_KINDS:
             variants.append('abort-remove')
             v['ops'] = [['storeblob', 3, 'cur', 20, 77]] + [o for o in v['ops'] if o[0] != 'delete']
         else:
@@ -1369,28 +1677,44 @@ def gen_case(rng, kind, thorough):
         v['d'] = min(v['d'], 300)
         v['ops'] = [o for o in v['ops'] if o[0] != 'delete'] or [['store', 1, 'cur', 5, 5]]
         steps.append(dict(type='scenario', victim=v, failure=dict(kind='finishcb')))
-    return dict(kind=kind, quota=quota, base=base, steps=steps)
+    return dict(kind=kind, quota=quota, base=base, steps=steps, opts=opts)
 
 
 # ---------------------------------------------------------------------------- Connection level
-def gen_conn_spec(rng):
+CONN_STORAGES = ['file', 'fileblob', 'mapping', 'demofile', 'hexfile', 'mvccmapping', 'blobfile', 'file-config']
+
+
+def gen_conn_spec(rng, storage=None):
     """rounds of failing commits driven through transaction.commit() on a Connection"""
+    storage = storage or rng.choice(CONN_STORAGES)
+    undoable = storage in ('file', 'fileblob', 'blobfile', 'hexfile', 'file-config')
     rounds = []
     for when in ('vote', 'commit', 'begin'):
-        rounds.append(dict(kind='foreign', when=when, savepoint=rng.random() < 0.4,
-                           size=rng.choice([1, 5000, 30000])))
-    for sp in (True, False, True):
+        rounds.append(dict(kind='foreign', when=when, first=rng.random() < 0.4,
+                           savepoint=rng.choice([False, False, True, 'optimistic']),
+                           size=rng.choice([1, 5000, 30000, 70000])))
+    for sp in (True, False, 'optimistic'):
         rounds.append(dict(kind='conflict', savepoint=sp, on=rng.randrange(2), size=rng.choice([1, 300, 9000])))
-    rounds.append(dict(kind='meta', savepoint=rng.random() < 0.5, size=rng.choice([1, 300])))
-    # db.undo() joined to a transaction that does not finish: the undo is impossible (UndoError in the
-    # commit phase), another participant fails before / after the undo manager voted, or plain abort
-    rounds.append(dict(kind='undo', how='impossible', size=1))
-    for when in ('begin', 'commit', 'vote'):
-        rounds.append(dict(kind='undo', how='foreign', when=when, first=rng.random() < 0.5, size=1))
-    rounds.append(dict(kind='undo', how='foreign', when='vote', first=False, size=1))
-    rounds.append(dict(kind='undo', how='early', size=1))
+    if storage != 'mapping' and storage != 'mvccmapping':
+        rounds.append(dict(kind='meta', savepoint=rng.random() < 0.5, size=rng.choice([1, 300])))
+    rounds.append(dict(kind='savepoint-fail', size=rng.choice([1, 300])))
+    rounds.append(dict(kind='import', savepoint=rng.random() < 0.5, cut=rng.choice([0.3, 0.6, 0.95]), size=1))
+    rounds.append(dict(kind='multidb', how=rng.choice(['conflict', 'foreign']), when=rng.choice(['vote', 'commit']),
+                       size=rng.choice([1, 300])))
+    if undoable:
+        # db.undo() / undoMultiple() joined to a transaction that does not finish: the undo is impossible
+        # (UndoError in the commit phase), another participant fails before / after the undo manager
+        # voted, or plain abort
+        rounds.append(dict(kind='undo', how='impossible', size=1))
+        rounds.append(dict(kind='undo', how='multiple', size=1))
+        for when in ('begin', 'commit', 'vote'):
+            rounds.append(dict(kind='undo', how='foreign', when=when, first=rng.random() < 0.5, size=1))
+        rounds.append(dict(kind='undo', how='foreign', when='vote', first=False, size=1))
+        rounds.append(dict(kind='undo', how='early', size=1))
     rng.shuffle(rounds)
-    return dict(kind='conn', nobj=rng.choice([2, 3]), rounds=rounds)
+    return dict(kind='conn', storage=storage, explicit=rng.random() < 0.3, nobj=rng.choice([2, 3]), rounds=rounds,
+                dbopts=rng.choice([{}, dict(pool_size=2, cache_size=3, historical_pool_size=1,
+                                            large_record_size=1 << 14)]))
 
 
 class ForeignFailure(RuntimeError):
@@ -1430,46 +1754,148 @@ class FailingRM:
         pass
 
 
+class NoSavepointRM:
+    """a participant that cannot do savepoints: transaction.savepoint() fails while it is joined"""
+
+    def sortKey(self):
+        return '~nosavepoint'
+
+    def abort(self, t):
+        pass
+
+    tpc_begin = commit = tpc_vote = tpc_finish = tpc_abort = abort
+
+
+def conn_storage(kind, root, name='Data.fs'):
+    """-> (storage handed to DB, the FileStorage below it or None, object owning the commit lock)"""
+    from ZODB.FileStorage import FileStorage
+    from ZODB.MappingStorage import MappingStorage
+    from ZODB.DemoStorage import DemoStorage
+    from ZODB.blob import BlobStorage
+    from ZODB.tests.hexstorage import HexStorage
+    path = os.path.join(root, name)
+    blobs = os.path.join(root, 'blobs-' + name)
+    if kind in ('file', 'file-config'):
+        f = FileStorage(path)
+        return f, f, f
+    if kind == 'fileblob':
+        f = FileStorage(path, blob_dir=blobs)
+        return f, f, f
+    if kind == 'blobfile':
+        f = FileStorage(path)
+        return BlobStorage(blobs, f), f, f
+    if kind == 'hexfile':
+        f = FileStorage(path)
+        return HexStorage(f), f, f
+    if kind == 'demofile':
+        f = FileStorage(path)
+        return DemoStorage(base=MappingStorage('base'), changes=f), f, f
+    if kind == 'mapping':
+        m = MappingStorage()
+        return m, None, m
+    if kind == 'mvccmapping':
+        from ZODB.tests.MVCCMappingStorage import MVCCMappingStorage
+        m = MVCCMappingStorage()
+        return m, None, m
+    raise InfraError('unknown connection-level storage %r' % kind)
+
+
 def conn_case(ck, root, spec):
-    """Connection level (anchors Connection.py): a transaction on a Connection over a FileStorage
-    (under the VFS) fails during transaction.commit() — a second resource manager failing its
-    tpc_begin / commit / vote, a ConflictError (also while savepoint data is copied), over-long
-    description — and is aborted.  Oracle only: the storage (bytes, iterator, memory) is as before,
-    the committing connection shows exactly what a brand-new connection reads, and the next
-    transaction on it commits (worker thread + timeout) storing nothing but its own change."""
+    """Connection level (anchors Connection.py, DB.py): a transaction on a Connection — over FileStorage
+    (with / without blobs, hex-wrapped, under BlobStorage, as DemoStorage changes, built by ZODB.config),
+    MappingStorage or the natively multi-version MVCCMappingStorage, with implicit or explicit
+    transaction managers, alone or in a multi-database group — fails during transaction.commit(): a second
+    resource manager failing its tpc_begin / commit / vote ordered before or after the connection, a
+    ConflictError (also while savepoint data is copied, also after optimistic savepoints), over-long
+    description, a failing savepoint, a truncated importFile, DB.undo / undoMultiple victims, one database
+    of a group failing — and is aborted.  Oracle only: the storages (bytes, iterator, memory) are as
+    before, the committing connection shows exactly what a brand-new connection reads, the next
+    transaction on it commits (worker thread + timeout) storing nothing but its own change, and after
+    close + reopen the database reads the same."""
+    import io
     import transaction
     import ZODB
-    from ZODB.FileStorage import FileStorage
+    from ZODB.blob import Blob
     from persistent.mapping import PersistentMapping
     import clock
     rec = vfs.Recorder(root)
+    skind = spec.get('storage', 'file')
+
+    def stop(sig, what, case):
+        """report; an open known finding does not end the case (it must not shadow later rounds)"""
+        import re as _re
+        ck.violation(sig, what, case)
+        return not any(k.get('status', 'open') == 'open' and _re.fullmatch(k['signature'], sig) for k in ck.known)
+
+    def restart(tm):
+        try:
+            tm.abort()
+        except Exception:
+            pass
+        tm.begin()
+
     keys = ['k%d' % i for i in range(spec['nobj'])]
+    explicit = bool(spec.get('explicit'))
     with vfs.install(rec), clock.scripted():
-        fs = FileStorage(os.path.join(root, 'Data.fs'))
-        db = ZODB.DB(fs)
-        tm1 = transaction.TransactionManager()
+        storage, fs, owner = conn_storage(skind, root)
+        dbs = {}
+        if skind == 'file-config':
+            import ZODB.config
+            fs.close()
+            db = ZODB.config.databaseFromString(
+                '<zodb main>\n <filestorage>\n  path %s\n </filestorage>\n cache-size 7\n pool-size 3\n'
+                ' historical-pool-size 2\n database-name main\n</zodb>\n' % os.path.join(root, 'Data.fs'))
+            dbs = db.databases
+            storage = fs = owner = db.storage
+        else:
+            db = ZODB.DB(storage, databases=dbs, database_name='main', **spec.get('dbopts', {}))
+        storage2, fs2, owner2 = conn_storage('file', root, 'Other.fs')
+        db2 = ZODB.DB(storage2, databases=dbs, database_name='other')
+        has_blobs = skind in ('fileblob', 'blobfile')
+        tm1 = transaction.TransactionManager(explicit=explicit)
+        tm1.begin()
         c1 = db.open(tm1)
         r1 = c1.root()
         for k in keys:
             r1[k] = PersistentMapping({'v': 0})
+        if has_blobs:
+            r1['blob'] = Blob(b'blob-0')
+        c1.get_connection('other').root()['o'] = PersistentMapping({'v': 0})
         tm1.commit()
         tm2 = transaction.TransactionManager()
         c2 = db.open(tm2)
 
+        def flags(o, f):
+            d = dict(lock=not o._commit_lock.locked())
+            if hasattr(o, '_transaction') and skind != 'mvccmapping':
+                d['txn'] = o._transaction is None
+            if f is not None:
+                d.update(pos=f._pos, ltid=f._ltid, nidx=len(f._index), ntidx=len(f._tindex),
+                         tfile=f._tfile.tell(), pool=(f._files.writing, f._files.writers, len(f._files._out)))
+            return d
+
         def image():
             img = {k: v for k, v in vfs.snapshot(root).items()
-                   if not k.endswith('/') and not k.endswith('.lock') and not k.endswith('.tmp')}
-            its = [(t.tid, [(x.oid, x.tid, x.data) for x in t]) for t in fs.iterator()]
-            return dict(img=img, its=its, pos=fs._pos, ltid=fs._ltid, nidx=len(fs._index),
-                        ntidx=len(fs._tindex), txn=fs._transaction is None,
-                        lock=not fs._commit_lock.locked())
+                   if not k.endswith('/') and not k.endswith('.lock') and not k.endswith('.tmp')
+                   and (os.sep + 'tmp' + os.sep) not in k}
+            its = [(t.tid, [(x.oid, x.tid, x.data) for x in t]) for t in db.storage.iterator()]
+            its2 = [(t.tid, [(x.oid, x.tid, x.data) for x in t]) for t in db2.storage.iterator()]
+            d = dict(img=img, its=its, its2=its2)
+            d.update(('main.' + k, v) for k, v in flags(owner, fs).items())
+            d.update(('other.' + k, v) for k, v in flags(owner2, fs2).items())
+            return d
 
         def view(conn):
-            return {k: dict(conn.root()[k].data) for k in keys}
+            v = {k: dict(conn.root()[k].data) for k in keys}
+            v['o'] = dict(conn.get_connection('other').root()['o'].data)
+            if has_blobs:
+                with conn.root()['blob'].open('r') as f:
+                    v['blob'] = f.read()
+            return v
 
-        def fresh_view():
+        def fresh_view(dbx=None):
             tm = transaction.TransactionManager()
-            c = db.open(tm)
+            c = (dbx or db).open(tm)
             try:
                 return view(c)
             finally:
@@ -1477,48 +1903,87 @@ def conn_case(ck, root, spec):
                 c.close()
 
         for n, rd in enumerate(spec['rounds']):
-            case = dict(kind='conn', nobj=spec['nobj'], rounds=spec['rounds'][:n + 1])
-            label = rd['kind'] + ('-' + rd['when'] if rd['kind'] == 'foreign' else '') + (
+            case = dict(spec, rounds=spec['rounds'][:n + 1])
+            label = rd['kind'] + ('-' + rd['when'] + ('-first' if rd.get('first') else '-last')
+                                  if rd['kind'] == 'foreign' else '') + (
                 '-savepoint' if rd.get('savepoint') else '')
             if rd['kind'] == 'undo':
                 label = 'undo-' + rd['how'] + ('-' + rd['when'] + ('-first' if rd.get('first') else '-last')
                                                if rd['how'] == 'foreign' else '')
+            if rd['kind'] == 'multidb':
+                label = 'multidb-' + rd['how']
             ck.count('conn:' + label)
+            ck.count('conn-storage:' + skind + (':explicit' if explicit else ''))
             try:
-                tm1.begin()
+                restart(tm1)
                 tmc = tm1                    # the transaction manager whose commit fails
+                pre_raised = None
                 objs = [r1[k] for k in keys] if rd['kind'] != 'undo' else []
                 if rd['kind'] == 'undo':
                     # no connection takes part (it would compete with the undo manager for the same
                     # commit lock): the undo manager, alone or with a failing second participant
                     tmc = transaction.TransactionManager()
                     log = db.undoLog(0, 6)
-                    if rd['how'] == 'impossible' and len(log) < 2:
+                    if (rd['how'] == 'impossible' and len(log) < 2) or (rd['how'] == 'multiple' and len(log) < 3):
                         continue
                     # every later transaction rewrote all objects, so only the newest one can be undone
-                    uid = log[1]['id'] if rd['how'] == 'impossible' else log[0]['id']
-                    db.undo(uid, tmc.get())
+                    if rd['how'] == 'multiple':
+                        # the newest (undoable) together with an older one whose objects were rewritten since
+                        db.undoMultiple([log[0]['id'], log[2]['id']], tmc.get())
+                    else:
+                        db.undo(log[1]['id'] if rd['how'] == 'impossible' else log[0]['id'], tmc.get())
                     if rd['how'] == 'foreign':
                         tmc.get().join(FailingRM(rd['when'], rd.get('first', False)))
+                sp = rd.get('savepoint')
                 for i, o in enumerate(objs):
                     o['v'] = 'r%d-%d-' % (n, i) + 'y' * rd['size']
-                    if rd.get('savepoint') and i == 0:
-                        tm1.savepoint()
-                if rd.get('savepoint'):
-                    tm1.savepoint()
+                    if sp and i == 0:
+                        tm1.savepoint(optimistic=(sp == 'optimistic'))
+                if objs and has_blobs and rd['kind'] in ('foreign', 'conflict'):
+                    with r1['blob'].open('w') as f:
+                        f.write(b'blob-r%d' % n)
+                if sp and objs:
+                    tm1.savepoint(optimistic=(sp == 'optimistic'))
                 if rd['kind'] == 'conflict':
                     tm2.begin()
                     c2.root()[keys[rd['on'] % len(keys)]]['v'] = 'other-%d' % n
                     tm2.commit()
                 elif rd['kind'] == 'foreign':
-                    tm1.get().join(FailingRM(rd['when']))
+                    tm1.get().join(FailingRM(rd['when'], rd.get('first', False)))
                 elif rd['kind'] == 'meta':
                     tm1.get().note('d' * 70000)
+                elif rd['kind'] == 'multidb':
+                    # both databases of the group take part; the OTHER one fails
+                    c1.get_connection('other').root()['o']['v'] = 'r%d' % n
+                    if rd['how'] == 'conflict':
+                        tmo = transaction.TransactionManager()
+                        co = db2.open(tmo)
+                        co.root()['o']['v'] = 'rival-%d' % n
+                        tmo.commit()
+                        co.close()
+                    else:
+                        tm1.get().join(FailingRM(rd['when'], False))
                 before = image()
                 n0 = len(rec.events)
+                if rd['kind'] == 'savepoint-fail':
+                    tm1.get().join(NoSavepointRM())
+                    try:
+                        tm1.savepoint()
+                    except Exception as e:
+                        pre_raised = e
+                elif rd['kind'] == 'import':
+                    buf = io.BytesIO()
+                    c1.exportFile(r1[keys[0]]._p_oid, buf)
+                    data = buf.getvalue()
+                    try:
+                        c1.importFile(io.BytesIO(data[:max(5, int(len(data) * rd['cut']))]))
+                    except Exception as e:
+                        pre_raised = e
                 try:
                     if rd.get('how') == 'early':
                         raise ForeignFailure('aborted before the commit began')
+                    if pre_raised is not None:
+                        raise pre_raised
                     tmc.commit()
                     raised = None
                 except Exception as e:          # the failure under test
@@ -1527,10 +1992,15 @@ def conn_case(ck, root, spec):
                 evs = [e for e in rec.events[n0:] if e[0] in ('write', 'trunc') and e[1] == 'Data.fs']
                 kinds = ''.join('w' if e[0] == 'write' else 't' for e in evs)
                 ck.count('conn:data-trace:' + ('write+trunc' if 't' in kinds else (kinds and 'write' or 'none')))
-                ck.case(['conn', rd, kinds], True)
+                ck.case(['conn', skind, explicit, rd, kinds], True)
                 if raised is None:
-                    ck.violation('C05:conn:%s-not-raised' % label, 'transaction.commit() did not raise', case)
-                    return
+                    if rd['kind'] in ('import', 'savepoint-fail') or rd.get('how') == 'multiple':
+                        ck.count('conn:%s-did-not-fail' % label)      # (an export cut at a record boundary)
+                        continue
+                    if stop('C05:conn:%s-not-raised' % label, 'transaction.commit() did not raise', case):
+                        return
+                    restart(tm1)
+                    continue
                 # the savepoint store of the failed transaction (a TmpStore with an open temporary file) must
                 # be closed once the transaction has ended (`raised` keeps the failing frames alive, so a
                 # store that was merely dropped is still found here)
@@ -1538,35 +2008,43 @@ def conn_case(ck, root, spec):
                 open_tmp = [o for o in gc.get_objects() if type(o).__name__ == 'TmpStore'
                             and getattr(getattr(o, '_file', None), 'closed', True) is False]
                 if open_tmp:
-                    ck.violation('C05:trace-left:tmpstore-open:%s' % label,
+                    if stop('C05:trace-left:tmpstore-open:%s' % label,
                                  'transaction.commit() failed (%s: %s) and was aborted; %d savepoint store(s) '
                                  '(TmpStore) of the ended transaction still hold an open temporary file' % (
-                                     label, type(raised).__name__, len(open_tmp)), case)
-                    return
+                                     label, type(raised).__name__, len(open_tmp)), case):
+                        return
+                    restart(tm1)
+                    continue
                 after = image()
                 if before != after:
                     diff = [k for k in before if before[k] != after[k]]
-                    sig = 'C05:lock-leak:conn:%s' % label if 'lock' in diff else 'C05:trace-left:conn:%s' % label
-                    ck.violation(sig, 'transaction.commit() failed (%s: %s) and was aborted; afterwards the '
-                                      'FileStorage differs in %s' % (label, type(raised).__name__, diff), case)
-                    return
+                    sig = 'C05:lock-leak:conn:%s' % label if any('lock' in k for k in diff) \
+                        else 'C05:trace-left:conn:%s' % label
+                    if stop(sig, 'transaction.commit() failed (%s: %s) and was aborted; afterwards the '
+                                      'storage (%s) differs in %s' % (label, type(raised).__name__, skind, diff), case):
+                        return
+                    restart(tm1)
+                    continue
                 # the committing connection shows what a brand-new connection reads
-                tm1.begin()
+                restart(tm1)
                 v1, v3 = view(c1), fresh_view()
                 if v1 != v3:
-                    bad = [k for k in keys if v1[k] != v3[k]]
-                    ck.violation('C05:trace-left:conn-view:%s' % label,
+                    bad = [k for k in v1 if v1[k] != v3[k]]
+                    if stop('C05:trace-left:conn-view:%s' % label,
                                  'after the failed and aborted commit (%s) the committing connection shows %s = '
                                  '%r, a new connection reads %r' % (label, bad[0], str(v1[bad[0]])[:80],
-                                                                    str(v3[bad[0]])[:80]), case)
-                    return
-                # the next transaction: an unrelated change to every object
+                                                                    str(v3[bad[0]])[:80]), case):
+                        return
+                    restart(tm1)
+                    continue
+                # the next transaction: an unrelated change to every object, in both databases
                 done = []
 
                 def nxt():
                     try:
                         for k in keys:
                             r1[k]['w'] = n
+                        c1.get_connection('other').root()['o']['w'] = n
                         tm1.commit()
                         done.append(1)
                     except Exception as e:
@@ -1575,29 +2053,63 @@ def conn_case(ck, root, spec):
                 th.start()
                 th.join(TIMEOUT)
                 if not done:
-                    ck.violation('C05:lock-leak:conn:%s' % label, 'the next transaction.commit() did not return', case)
-                    return
+                    if stop('C05:lock-leak:conn:%s' % label, 'the next transaction.commit() did not return', case):
+                        return
+                    restart(tm1)
+                    continue
                 if done[0] != 1:
-                    ck.violation('C05:next-txn-failed:conn:%s' % label,
-                                 'the next transaction.commit() raised %r' % (done[0],), case)
-                    return
-                exp = {k: dict(v3[k], w=n) for k in keys}
+                    if stop('C05:next-txn-failed:conn:%s' % label,
+                                 'the next transaction.commit() raised %r' % (done[0],), case):
+                        return
+                    restart(tm1)
+                    continue
+                exp = {k: (dict(v3[k], w=n) if isinstance(v3[k], dict) else v3[k]) for k in v3}
                 got = fresh_view()
                 if got != exp:
-                    bad = [k for k in keys if got[k] != exp[k]]
-                    ck.violation('C05:next-txn-damaged-others:conn:%s' % label,
+                    bad = [k for k in exp if got[k] != exp[k]]
+                    if stop('C05:next-txn-damaged-others:conn:%s' % label,
                                  'the transaction after the failed one changed only "w", but a new connection '
                                  'now reads %s = %r instead of %r' % (bad[0], str(got[bad[0]])[:80],
-                                                                      str(exp[bad[0]])[:80]), case)
-                    return
+                                                                      str(exp[bad[0]])[:80]), case):
+                        return
+                    restart(tm1)
+                    continue
             except Exception as e:
-                ck.violation('C05:conn:unexpected-error:%s' % label,
+                if stop('C05:conn:unexpected-error:%s' % label,
                              'driving a Connection through a failing commit raised %s: %s' % (
-                                 type(e).__name__, str(e)[:200]), case)
-                return
-        c1.close()
-        c2.close()
-        db.close()
+                                 type(e).__name__, str(e)[:200]), case):
+                    return
+                restart(tm1)
+                continue
+        # close + reopen: nothing of the failed transactions shows after a restart
+        try:
+            final = fresh_view()
+            try:
+                tm1.abort()
+            except Exception:               # explicit mode: no transaction to abort
+                pass
+            c1.close()
+            c2.close()
+            db.close()
+            db2.close()
+            if fs is not None and skind != 'demofile':
+                storage, fs, owner = conn_storage('file' if skind == 'file-config' else skind, root)
+                storage2, fs2, owner2 = conn_storage('file', root, 'Other.fs')
+                dbs = {}
+                db = ZODB.DB(storage, databases=dbs, database_name='main')
+                db2 = ZODB.DB(storage2, databases=dbs, database_name='other')
+                again = fresh_view(db)
+                ck.count('conn:reopen')
+                if again != final:
+                    bad = [k for k in final if again.get(k) != final[k]]
+                    ck.violation('C05:trace-after-reopen:conn:%s' % skind,
+                                 'after close and reopen a new connection reads %s = %r instead of %r' % (
+                                     bad[0], str(again.get(bad[0]))[:80], str(final[bad[0]])[:80]), dict(spec))
+                db.close()
+                db2.close()
+        except Exception as e:
+            ck.violation('C05:conn:unexpected-error:reopen', 'closing / reopening the databases raised %s: %s' % (
+                type(e).__name__, str(e)[:200]), dict(spec))
 
 
 # ---------------------------------------------------------------------------- driver / verdict
@@ -1624,8 +2136,14 @@ def run_case(ck, case, idx, rng=None, thorough=False, stop_at_first=True, tmp=No
     if os.path.exists(root):
         shutil.rmtree(root)
     os.makedirs(root)
-    r = Runner(None, case, root, stop_at_first=stop_at_first)
-    r.run(rng, thorough)
+    import tempfile
+    saved_tmp = tempfile.tempdir
+    tempfile.tempdir = root           # DemoStorage's on-demand blob directory etc. stay below the case directory
+    try:
+        r = Runner(None, case, root, stop_at_first=stop_at_first)
+        r.run(rng, thorough)
+    finally:
+        tempfile.tempdir = saved_tmp
     shutil.rmtree(root, ignore_errors=True)
     return r
 
@@ -1647,12 +2165,13 @@ def _work(args):
 
 
 _ctr = [0]
+CUR_OPTS = [None]         # construction options of the case being shrunk
 
 
-def replay_fails(ck, kind, quota, base, steps, sig):
+def replay_fails(ck, kind, quota, base, steps, sig, opts=None):
     _ctr[0] += 1
     try:
-        r = run_case(ck, dict(kind=kind, quota=quota, base=base, steps=steps), 100000 + _ctr[0])
+        r = run_case(ck, dict(kind=kind, quota=quota, base=base, steps=steps, opts=opts or CUR_OPTS[0]), 100000 + _ctr[0])
     except Exception:
         return False
     return any(v[0] == sig for v in r.violations)
@@ -1675,10 +2194,10 @@ def main(argv=None):
         cases = [c]
     else:
         cases += load_corpus()
-        n = 20 if not ck.thorough else 300
+        n = 24 if not ck.thorough else 300
         for i in range(n):
-            kind = KINDS[i % len(KINDS)] if i >= 8 else ['file', 'fileblob', 'demofile', 'blobfile',
-                                                         'blobmapping', 'fileblob', 'mapping', 'demomapping'][i]
+            # every storage kind at least once, then weighted towards the file based ones
+            kind = KINDS[i] if i < len(KINDS) else ck.rng.choice(KINDS + ['file', 'fileblob', 'blobfile', 'demofile'])
             cases.append(gen_case(ck.rng, kind, ck.thorough))
     all_lines = []
     spans = []
@@ -1723,6 +2242,7 @@ def main(argv=None):
             sig, what, at = r.violations[0]
             steps = r.executed[:at + 1]
             kind, quota, base = case['kind'], case.get('quota'), case.get('base')
+            CUR_OPTS[0] = case.get('opts')
             if ck.violations:
                 small = steps               # only the first violation is shrunk (it is the one reported)
             elif sig.startswith('C05:step-blocked'):
@@ -1736,7 +2256,7 @@ def main(argv=None):
                 small = ddmin(steps, lambda s: replay_fails(ck, kind, quota, base, s, sig), max_tests=60)
             else:
                 small = steps
-            ck.violation(sig, what, dict(kind=kind, quota=quota, base=base, steps=small))
+            ck.violation(sig, what, dict(kind=kind, quota=quota, base=base, steps=small, opts=case.get('opts')))
         else:
             spans.append((len(all_lines), r, case))
             all_lines += r.lines
@@ -1757,10 +2277,17 @@ def main(argv=None):
                              steps=r.executed, model_lines=ctx))
                     break
     if not ck.replay_path:
-        for i in range(4 if not ck.thorough else 60):
+        import tempfile
+        nconn = len(CONN_STORAGES) if not ck.thorough else 80
+        for i in range(nconn):
             conn_root = os.path.join(ck.tmp, 'conn%d' % i)
             os.makedirs(conn_root)
-            conn_case(ck, conn_root, gen_conn_spec(ck.rng))
+            saved_tmp = tempfile.tempdir
+            tempfile.tempdir = conn_root
+            try:
+                conn_case(ck, conn_root, gen_conn_spec(ck.rng, CONN_STORAGES[i % len(CONN_STORAGES)]))
+            finally:
+                tempfile.tempdir = saved_tmp
             shutil.rmtree(conn_root, ignore_errors=True)
     finish(ck)
 
